@@ -15,6 +15,24 @@ CLAIMS = {
  "C01": ("path-partitioned SSA dataflow: nil/bounds/assert/panic-site/lock-pairing/lock-order/no-block rules over call-graph-reachable handlers",
          "Every first-party function reachable from the datagram handlers is explored on all abstract paths; each dereference, index, assertion, map write, panic site, lock acquisition, loop and send site is an obligation that must be discharged. Shows absence of first-party panics/blocking/held locks of the modelled classes for every datagram and history; says nothing about dependencies.",
          "Does not decide panics or blocking inside dependencies, nor resource exhaustion.", "4 C01"),
+ "C11": ("decision-table comparison (three-valued, over per-path branch facts) on HandleMsg4 + who-may-write scan of DHCPv4 identity fields",
+         "Every abstract state reaching a send site must satisfy the request filter and every silent exit must falsify it; the request-type to reply-type map and the stub construction are extracted from SSA and compared with the frozen table; codec facts are re-derived. Decides the server's own filter/type-map logic for all opcodes and types; the codec's encoding is trusted.",
+         "Codec encoding and third-party plugins are not decided.", "4 C11"),
+ "C12": ("decision-table comparison on HandleMsg6 (type map, filter, relay re-encapsulation, destination, interface pinning)",
+         "The (message type, rapid commit) to constructor map, the send filter, the relay/direct split, the destination and the pinning condition are extracted from all abstract states and compared with the frozen RFC table, including non-vacuity of each row.",
+         "Per-layer relay mirroring and xid/client-id echo are the codec constructors' job (trusted).", "4 C12"),
+ "C13": ("per-iteration path exploration of LoadPlugins/parsePlugins, structural recognition of the dispatch loops, return-shape rule over all built-in handlers",
+         "Shows on all abstract paths that loading appends exactly the configured, supported plugins in order and aborts on unknown/failed ones, that dispatch calls each handler once with (request, running response) until stop, that what is sent is the loop's exit value, and that built-in handlers return nil only with stop.",
+         "Registry contents are run-time data.", "4 C13"),
+ "C14": ("three-valued comparison of every abstract exit of the serverid handlers with the RFC 8415 s16 matrix / the DHCPv4 two-place rule; init-before-use",
+         "Every drop/accept exit is classified and compared with the frozen matrix over Server-ID presence, type family and DUID equality; DHCPv4 accepts must have examined both siaddr and option 54; accepts stamp this server's identifier; identifiers are initialised by every successful setup.",
+         "DUID equality semantics are the codec's.", "4 C14"),
+ "C15": ("decision-table comparison of destination/port/L2/pinning at the send sites of HandleMsg4; frame-field provenance in sendEthernet; listener setup must-pass rule",
+         "In every abstract state the (address expression, port, link-level flag, control message) chosen equals the RFC 2131 s4.1 row selected by giaddr/NAK/ciaddr/broadcast flag; all five rows are realised; L2 frame fields and listener interface knowledge are checked.",
+         "Kernel routing and gopacket serialisation are not decided.", "4 C15"),
+ "C17": ("per-emission-site entitlement gates (three-valued over branch facts), option-code derivation from codec constructors, idempotence and provenance rules",
+         "Each option emission of each option plugin is matched with its row of the frozen table: derived option code, entitlement gate true in every abstract state, entitled clients always served, at-most-once, value from the configured global, specified stop flag.",
+         "Wire encoding and value equality beyond provenance are not decided.", "4 C17"),
 }
 
 NOT_YET = "rule set designed in DESIGN.md section 4 but not implemented yet in this revision of the checker"
